@@ -186,13 +186,28 @@ def c_rope(cex, obs):
     return False, 'native rope observers agree with the flat strings'
 
 
+def has_kind_t(t, kind):
+    if not isinstance(t, dict): return False
+    if t.get('kind') == kind: return True
+    return any(has_kind_t(c, kind) for c in t.get('children', [])) or has_kind_t(t.get('inner'), kind)
+
+
 def c_threads(cex, obs):
-    if 'was replaced' not in cex.get('oracle', ''): return False, 'no native forcing harness for this interleaving class (only cache-entry replacement is replayed on real threads)'
+    orc = cex.get('oracle', '')
     t = cex.get('tree', {})
-    if t.get('kind') != 'cached': return False, 'native harness covers a CachedSource root only'
-    for prof, o in obs.items():
-        if o.get('replaced'): return True, '%s build, real threads: the cached SourceMap moved from %#x to %#x while a reference into it was held - the entry was replaced' % (prof, o['borrowed_name_ptr_before'], o['borrowed_name_ptr_after'])
-    return False, 'native threads: the cached entry was not replaced'
+    if 'was replaced' in orc:
+        if not has_kind_t(t, 'cached'): return False, 'native harness covers CachedSource only'
+        for prof, o in obs.items():
+            if o.get('replaced'):
+                w = o['map_first'] if o['map_first'].get('replaced') else o['stream_first']
+                return True, '%s build, real threads (first thread inside inner.%s()): the cached SourceMap moved from %#x to %#x while a reference into it was held - the entry was replaced' % (prof, w['first_op'], w['borrowed_name_ptr_before'], w['borrowed_name_ptr_after'])
+        return False, 'native threads: the cached entry was not replaced'
+    if 'answers differently' in orc and has_kind_t(t, 'replace'):
+        for prof, o in obs.items():
+            st = o.get('stress')
+            if st and st.get('mismatches', 0) > 0: return True, '%s build, real threads (stress, %d rounds): %d racing source() calls returned a text of the wrong length' % (prof, st['rounds'], st['mismatches'])
+        return False, 'native stress run of the lazy sort: all answers correct'
+    return False, 'no native forcing harness for this interleaving class'
 
 
 def c_eqhash(cex, obs):
